@@ -16,14 +16,16 @@ RULE = 'INORDER'
 PROPS = ['C07']
 
 
-def frame_roles(prog, owner):
-    """{field: 'left'|'right'|'self'} from what is ever stored into the frame's fields"""
+def frame_roles(prog, owner, within):
+    """{field: 'left'|'right'|'self'} from what is ever stored into the frame's fields (by the traversal and its helpers)"""
     roles = {}
     for (adt, field), writes in record_writes(prog).items():
         if adt != owner:
             continue
         kinds = set()
         for (wfn, val) in writes:
+            if wfn.path not in within:
+                continue
             sv = strip(val)
             if prog.is_empty_ref(sv):
                 continue
@@ -73,11 +75,11 @@ def run(ctx):
             if not top:
                 problems.append('the frame examined is not the top of the stack (len - 1)')
         # frame fields and roles
-        loads = [v for v in b._vals if v.kind == 'load' and strip(v.args[0]) is fr and len(v.fields()) == 1 and v.ty == 'u32']
+        loads = [v for v in b._vals if v.kind == 'load' and ffield(v, fr) is not None and v.ty == 'u32']
         owner = None
         for v in loads:
             owner = v.extra.get('last_owner') or owner
-        roles = frame_roles(prog, owner) if owner else {}
+        roles = frame_roles(prog, owner, {g.path for g in prog.closure(root)} | {fn.path}) if owner else {}
         by_role = {}
         for f, r in roles.items():
             by_role.setdefault(r, []).append(f)
@@ -97,12 +99,12 @@ def run(ctx):
             if d.kind == 'bin' and d.args[0] in ('Ne', 'Eq'):
                 x, y = strip(d.args[1]), strip(d.args[2])
                 for p_, q_ in ((x, y), (y, x)):
-                    if p_.kind == 'load' and strip(p_.args[0]) is fr and len(p_.fields()) == 1 and p_.fields()[0] in fields and prog.is_empty_ref(q_):
-                        tests[sblk] = (p_.fields()[0], d.args[0])
+                    if p_.kind == 'load' and ffield(p_, fr) in fields and prog.is_empty_ref(q_):
+                        tests[sblk] = (ffield(p_, fr), d.args[0])
         clears = {}
         for st in b.stores:
-            if strip(st.root) is fr and len(st.fields()) == 1 and st.fields()[0] in fields:
-                clears.setdefault(st.point[0], []).append((st.point, st.fields()[0], 'C' if prog.is_empty_ref(st.value) else '?'))
+            if ffield(st, fr) in fields:
+                clears.setdefault(st.point[0], []).append((st.point, ffield(st, fr), 'C' if prog.is_empty_ref(st.value) else '?'))
         start = fr.point[0]
         state_in = {start: None}
         init = {f: '?' for f in fields}
@@ -154,7 +156,7 @@ def run(ctx):
 
         def state_before_clears(call):
             """state at the moment the frame field used by this push was read"""
-            used = [x for x in walk(call.args[1]) if x.kind == 'load' and strip(x.args[0]) is fr and len(x.fields()) == 1 and x.point]
+            used = [x for x in walk(call.args[1]) if x.kind == 'load' and ffield(x, fr) is not None and x.point]
             if used:
                 pt = min(x.extra.get('read_point', x.point) for x in used)
                 return state_at_point(pt)
@@ -166,8 +168,8 @@ def run(ctx):
                 continue
             tgt_local = strip_ref(c.args[0]).args[0]
             arg = c.args[1]
-            used = [x for x in walk(arg) if x.kind == 'load' and strip(x.args[0]) is fr and len(x.fields()) == 1]
-            flds = {x.fields()[0] for x in used}
+            used = [x for x in walk(arg) if x.kind == 'load' and ffield(x, fr) is not None]
+            flds = {ffield(x, fr) for x in used}
             if tgt_local == stack_local:
                 for f in flds:
                     child_push.setdefault(f, []).append(c)
@@ -229,6 +231,18 @@ def run(ctx):
             ctx.add(RULE, fn, 'traversal', 'ok', 'explicit-stack traversal emits left subtree, node, right subtree: emit only on the left-consumed side, once; right child after the emit test; fields cleared when consumed; pop only when nothing is pending', PROPS, line, {'roles': roles})
 
 
+def ffield(x, fr):
+    """name of the frame field a load / store rooted at the frame reference designates (looking through the Option
+    wrapper of last()/last_mut()), or None"""
+    root = x.root if hasattr(x, 'root') else x.args[0]
+    if strip(root) is not fr:
+        return None
+    f = list(x.fields())
+    if f[:2] == ['as:Some', '0']:
+        f = f[2:]
+    return f[0] if len(f) == 1 else None
+
+
 def same(a, b):
     if a is b:
         return True
@@ -237,6 +251,10 @@ def same(a, b):
 
 def strip_ref(v):
     v = strip(v)
-    while v.kind == 'ref' and not v.fields():
-        v = strip(v.args[0])
-    return v
+    while True:
+        if v.kind == 'ref' and not v.fields():
+            v = strip(v.args[0])
+        elif v.kind == 'call' and v.callee_name() in ('deref', 'deref_mut', 'as_mut_slice', 'as_slice') and len(v.args) == 1:
+            v = strip(v.args[0])
+        else:
+            return v
